@@ -93,7 +93,7 @@ def case_strategy(draw, tier="quick"):
         if twin and kind == "iwrite" and G.chance(draw, 50):
             n = draw(st.integers(600, BIGN))
             steps.append({"op": "iwrite_shared", "var": 0, "twin": len(vars_) - 1, "box": [[draw(st.integers(0, BIGN - n))], [n], [1]],
-                          "form": "vara", "mt": "double", "seed": draw(st.integers(0, 10 ** 5)), "derived": False})
+                          "form": draw(st.sampled_from(["vara", "varn"])), "mt": "double", "seed": draw(st.integers(0, 10 ** 5)), "derived": False})
             continue
         if kind == "att":
             steps.append({"op": "att", "name": "a%d" % len(steps), "n": draw(st.integers(1, 6)), "seed": draw(st.integers(0, 99))})
@@ -298,8 +298,12 @@ def build(case, cfg):
                 q1, q2 = p.newreq(), p.newreq()
                 n1, slot, _, _ = p.put(fm, r, rq, fm.numrecs, api="iput", reqslot=q1, apply=False, values=vals)
                 # the same user buffer posted a second time, for the twin variable
-                n2 = p.s.op("data", ranks=[r], api="iput", form="vara", coll=0, mt="double", f="f0", v=stp["twin"], buf=slot,
-                            start=rq["start"], count=rq["count"], req=q2)
+                if rq["form"] == "varn":
+                    n2 = p.s.op("data", ranks=[r], api="iput", form="varn", coll=0, mt="double", f="f0", v=stp["twin"], buf=slot,
+                                num=len(rq["starts"]), starts=rq["starts"], counts=rq["counts"], req=q2)
+                else:
+                    n2 = p.s.op("data", ranks=[r], api="iput", form="vara", coll=0, mt="double", f="f0", v=stp["twin"], buf=slot,
+                                start=rq["start"], count=rq["count"], req=q2)
                 p.expect_rc(n2, [r], 0, "iput_vara (second request on the same buffer)")
                 pend.append((vi, idx, vals))
                 pend.append((stp["twin"], idx, vals))
